@@ -24,6 +24,8 @@ func c08(p *core.Program, r *core.Report) {
 	r.Rule("R2", "save after mutate: every function that assigns a persisted option of an open Field or Index (Field.options.*, Index.keys, Index.trackExistence) reaches saveMeta on every normal path before returning; functions that run during load/creation are a frozen list and their caller's save is checked")
 	r.Rule("R4", "loaded as saved: in every loadMeta the decoded meta message is not rewritten before it is copied, and each option is assigned from the wire field of the same name (an option recomputed on load from other options cannot tell a stored zero from an absent field)")
 	c08LoadedAsSaved(p, r)
+	r.Rule("R5", "the op log stays attached: a fragment function that sets <fragment>.storage.OpWriter to nil has it attached again on every path on which it returns (a non-nil assignment, a call that reaches one, or the wait for the queued snapshot); one exempt function with reason")
+	opWriterReattached(p, r, "R5")
 	r.Rule("R3", "atomic replace: Field.saveMeta writes a temporary file and renames it over the meta file (write precedes rename on every path)")
 	r.NotDecided = "the v1-upgrade reinterpretation of BitDepth == 0 (value dependent), translation and attribute store contents, fragment data (C05/C09 cover the log), time views"
 	pk := p.Pkg("")
